@@ -36,7 +36,7 @@ type C10Sc struct {
 
 const min5 = int64(5 * time.Minute)
 
-var c10Advances = []int64{0, 1, int64(time.Second), min5/2, min5 - 1, min5, min5 + 1, 2*min5 - 1, 2 * min5, 2*min5 + 1, 3*min5 - 1, 3 * min5, 3*min5 + 1, int64(time.Hour)}
+var c10Advances = []int64{0, 1, int64(time.Second), min5 / 2, min5 - 1, min5, min5 + 1, 2*min5 - 1, 2 * min5, 2*min5 + 1, 3*min5 - 1, 3 * min5, 3*min5 + 1, int64(time.Hour)}
 
 func genC10(t *rapid.T) C10Sc {
 	sc := C10Sc{Dual: rapid.Bool().Draw(t, "dual"), PeerStore: rapid.Bool().Draw(t, "peerstore")}
